@@ -945,9 +945,11 @@ func genC08(rng *rand.Rand) c08Prog {
 	return genMalformed(rng, bases[rng.Intn(len(bases))])
 }
 
-// corpus: the Coq _refuted witnesses as programs (8 entries, so that the
-// runtime's random start makes a miss practically impossible), plus the
-// inputs of DESIGN §7 rows 6-8
+// corpus: the Coq _before_fix_refuted witnesses as programs (8 entries, so that
+// the runtime's random start makes a miss practically impossible), plus the
+// inputs of DESIGN §7 rows 6-8. All five sites are fixed in /repo: the model in
+// force says "order independent" on every witness, so any variation here is a
+// VIOLATION (property) and a model-says-independent correspondence failure.
 // Witness holds the Coq _refuted witness of the same shape (2-3 entries): the
 // model in force is asked whether it is order dependent on it.
 var c08Corpus = []c08Prog{
@@ -1021,9 +1023,9 @@ func c08CheckBatch(cfg Config, r *Result, model *Model, progs []c08Prog, inproc 
 				Detail: "a program of a family that is meant to be accepted by the parser was rejected (harness generator out of date?): " + variants[0].Parse, Input: p})
 		}
 		if p.Dep {
-			stats["dependent-by-construction"]++
+			stats["formerly-order-dependent"]++
 			if len(variants) > 1 {
-				stats["dependent-detected"]++
+				stats["formerly-order-dependent-still-varies"]++
 			}
 		}
 		if len(r.Samples) < 4 && (p.Family == "map-literal-effects" || p.Family == "valid-mixed" || p.Family == "unused-vars" || p.Family == "font-bad-props") {
@@ -1075,7 +1077,7 @@ func c08CheckBatch(cfg Config, r *Result, model *Model, progs []c08Prog, inproc 
 				}
 				if p.Site == "combine-all" && o == "panic" && p.Fixed {
 					// wrapAny's internal-error panic on a Fixed value (C03/C04's defect, DESIGN §7 row 2):
-					// whether it happens is the order dependence classified above; the panic itself is not C08's
+					// since e6ebb6a it happens deterministically (source order); the panic itself is not C08's
 					stats["combine-wrapAny-panic-with-fixed-type"]++
 					continue
 				}
@@ -1178,9 +1180,9 @@ func runC08(cfg Config, r *Result) {
 		r.Distribution["stat:"+k] = stats[k]
 	}
 	reps := c08InProc + c08Procs
-	r.Note("miss probability of the repetition oracle for one order-dependent program whose relevant Go map has n entries (Go 1.23 runtime, n <= 8: iteration = rotation of the bucket from a uniformly random slot, empty slots fall through to the first entry): P(all %d repetitions deliver the same order) = ((9-n)/8)^%d + (n-1)/8^%d: n=4 %.2g, n=5 %.2g, n=6 %.2g, n=7 %.2g, n=8 %.2g; generators use n=8 in 50%% and n>=6 in 80%% of the programs. Observed: %d of %d by-construction order-dependent programs showed a variation.",
+	r.Note("miss probability of the repetition oracle for one order-dependent program whose relevant Go map has n entries (Go 1.23 runtime, n <= 8: iteration = rotation of the bucket from a uniformly random slot, empty slots fall through to the first entry): P(all %d repetitions deliver the same order) = ((9-n)/8)^%d + (n-1)/8^%d: n=4 %.2g, n=5 %.2g, n=6 %.2g, n=7 %.2g, n=8 %.2g; generators use n=8 in 50%% and n>=6 in 80%% of the programs. %d programs of the shapes that varied before the fixes (7307e12 af9ee3d 62da4a1 e6ebb6a abeb6de) were run; %d of them still vary (each one is a VIOLATION).",
 		reps, reps, reps, c08MissProb(4, reps), c08MissProb(5, reps), c08MissProb(6, reps), c08MissProb(7, reps), c08MissProb(8, reps),
-		stats["dependent-detected"], stats["dependent-by-construction"])
+		stats["formerly-order-dependent"], stats["formerly-order-dependent-still-varies"])
 	r.Note("the runtime only produces rotations of the bucket order, the theorems quantify over all permutations (a superset); correspondence checks observed ⊆ model outcomes: %d programs compared, in %d the model predicts order dependence and in %d of those the implementation was seen to vary.",
 		r.Validated, stats["model-says-order-dependent"], stats["model-says-order-dependent-and-observed-varies"])
 	r.Note("Program.CalledBuiltinFuncs / Evaluator.EventHandlerNames are compared as sets (their slice order follows map iteration: varied in %d programs; the only consumer, pkg/wasm, uses them as sets) — registered as OrderLeaksIntoNameListOnly, not reported as a violation.", stats["name-list-order-varied"])
